@@ -3,6 +3,7 @@ package props
 import (
 	"fmt"
 	"strings"
+	"unicode"
 
 	"github.com/woodsbury/jmespath/internal/verifmc/core"
 	"github.com/woodsbury/jmespath/internal/verifmc/ref"
@@ -33,6 +34,12 @@ func identity(s string) string { return s }
 
 var c11Rename1 = strings.NewReplacer("a", "é", "b", "€", "c", "😀")
 var c11Rename2 = strings.NewReplacer("b", "é", "c", "😀")
+
+// every class of UTF-8 lead byte appears in some renaming (E0, ED, F4; C2, DF, F0; the first three-byte code point, U+FFFD)
+var c11Renamings = []*strings.Replacer{c11Rename1, c11Rename2,
+	strings.NewReplacer("a", "\u0e01", "b", "\ud7ff", "c", "\U0010ffff"),
+	strings.NewReplacer("a", "\u0080", "b", "\u07ff", "c", "\U00010000"),
+	strings.NewReplacer("a", "\u0800", "b", "\ufffd", "c", "\U0001ffff")}
 
 // render builds the expression and document for one delivery mode under a renaming.
 func (c c11Call) render(mode string, ren func(string) string) (expr string, docText string) {
@@ -235,10 +242,10 @@ func init() {
 		ID:    "C11",
 		Title: "string operations count Unicode code points and never corrupt text",
 		Rule: "every string-handling construct (slices with all start/stop/step in -4..4 or absent, length, reverse, find_first/find_last with 2-4 arguments, pad_left/pad_right, split, replace, join, contains, starts_with, ends_with, trim*, sort/max/min and the *_by forms, ==, <) " +
-			"on every string of the alphabet {a,b,c}* up to the stated length with all numeric arguments in -1..6 is evaluated three times: as written, with a->é b->€ c->😀 (1 to 4-byte code points, order preserving) and with a->a b->é c->😀, in literal and in document delivery; " +
-			"the renamed result must be the renaming of the result; the ASCII point is also compared with the reference model; strings with combining marks and U+FFFD go through the reference comparison only; every result string must be valid UTF-8; " +
+			"on every string of the alphabet {a,b,c}* up to the stated length with all numeric arguments in -1..6 is evaluated six times: as written and under five order-preserving renamings that between them use every class of UTF-8 lead byte (a->é b->€ c->😀; a->a b->é c->😀; U+0E01/U+D7FF/U+10FFFF; U+0080/U+07FF/U+10000; U+0800/U+FFFD/U+1FFFF), in literal and in document delivery; " +
+			"the renamed result must be the renaming of the result; the ASCII point is also compared with the reference model; strings with combining marks and U+FFFD go through the reference comparison only; every result string must be valid UTF-8; lower and upper run on every code point that has a case mapping (thorough: every Unicode scalar value), alone, doubled and between ASCII neighbours: valid UTF-8, compositional, idempotent; " +
 			"non-trivial = a non-empty, non-null result; distinct_nontrivial counts distinct such outcomes",
-		Phases:      []core.Phase{{Name: "renaming", Build: "instr", Fn: c11Run}},
+		Phases:      []core.Phase{{Name: "renaming", Build: "instr", Fn: c11Run}, {Name: "case-mapping", Build: "instr", Fn: c11CaseMapping}},
 		Judge:       c11Judge,
 		Assumptions: []string{"the renamings are injective and preserve code point order, so every code-point-based operation must commute with them", "tick budget 100000 loop iterations per call"},
 	})
@@ -294,7 +301,7 @@ func c11Check(r *core.Run, c c11Call, mode string, extra bool) *core.Violation {
 	if extra {
 		return nil
 	}
-	for i, ren := range []*strings.Replacer{c11Rename1, c11Rename2} {
+	for i, ren := range c11Renamings {
 		e2, d2 := c.render(mode, ren.Replace)
 		dd := mkDoc(d2)
 		o2 := core.Search(e2, dd.Raw)
@@ -368,8 +375,77 @@ func c11Run(r *core.Run) {
 		}
 	}
 	r.Bound("max_string_length", map[bool]int{false: 4, true: 6}[r.Thorough()])
-	r.Bound("renamings", []string{"a->é b->€ c->😀", "a->a b->é c->😀"})
+	r.Bound("renamings", []string{"a->é b->€ c->😀", "a->a b->é c->😀", "a->U+0E01 b->U+D7FF c->U+10FFFF", "a->U+0080 b->U+07FF c->U+10000", "a->U+0800 b->U+FFFD c->U+1FFFF"})
 	r.Bound("extra_strings", c11Extra)
+}
+
+// c11CaseMapping: lower and upper on every code point that has a case mapping (thorough: on every Unicode scalar value).
+// Which mapping is "the" lowercase is not pinned, so the oracle is structural: the result is valid UTF-8, the mapping of a
+// string is the concatenation of the mappings of its code points (with ASCII neighbours), and mapping twice changes nothing.
+func c11CaseMapping(r *core.Run) {
+	var cps []rune
+	for c := rune(0); c <= unicode.MaxRune; c++ {
+		if c >= 0xD800 && c <= 0xDFFF {
+			continue
+		}
+		cased := unicode.ToLower(c) != c || unicode.ToUpper(c) != c || unicode.ToTitle(c) != c
+		if r.Thorough() || cased || c < 0x100 || c&0xFFF == 0 || c&0xFFF == 0xFFF {
+			cps = append(cps, c)
+		}
+	}
+	r.Bound("case_mapping_code_points", len(cps))
+	for i, c := range cps {
+		if !r.Mine(i / 64) {
+			continue
+		}
+		if i%4096 == 0 && r.Expired() {
+			return
+		}
+		if v := c11CasePoint(r, c); v != nil {
+			r.Violate(v)
+		}
+	}
+}
+
+var c11CaseExpr = lazyExpr{"[lower(s), upper(s), lower(x), upper(x), lower(d), upper(d), lower(lower(s)), upper(upper(s))]"}
+
+func c11CasePoint(r *core.Run, c rune) *core.Violation {
+	s := string(c)
+	d := map[string]any{"s": s, "x": "x" + s + "y", "d": s + s}
+	r.Begin(map[string]any{"expr": c11CaseExpr.Text, "doc": fmt.Sprintf("U+%04X", c)})
+	o := c11CaseExpr.run(d)
+	r.Eval(o)
+	r.Add("states", 1)
+	r.Add("transitions", 1)
+	mk := func(kind, exp string) *core.Violation {
+		return &core.Violation{Sig: "C11/case-mapping/" + kind, Desc: fmt.Sprintf("%s with s = U+%04X, x = \"x\"+s+\"y\", d = s+s", c11CaseExpr.Text, c),
+			Point: map[string]any{"expr": c11CaseExpr.Text, "doc": fmt.Sprintf("U+%04X", c), "kind": "case-mapping", "cp": fmt.Sprint(int(c))}, Expected: exp, Actual: o.Short()}
+	}
+	if o.Kind != "ok" {
+		return mk("fails", "a value")
+	}
+	if !core.ValidUTF8(o.Raw) {
+		return mk("invalid-utf8", "valid UTF-8")
+	}
+	a, ok := o.Val.([]any)
+	if !ok || len(a) != 8 {
+		return mk("shape", "eight strings")
+	}
+	str := func(i int) string { x, _ := a[i].(string); return x }
+	ls, us := str(0), str(1)
+	if c == 0x03A3 {
+		return nil // capital sigma: its lowercase legitimately depends on the context under the full Unicode algorithm
+	}
+	if str(2) != "x"+ls+"y" || str(3) != "X"+us+"Y" {
+		return mk("not-compositional", fmt.Sprintf("lower(x) = %q, upper(x) = %q", "x"+ls+"y", "X"+us+"Y"))
+	}
+	if str(4) != ls+ls || str(5) != us+us {
+		return mk("not-compositional", fmt.Sprintf("lower(d) = %q, upper(d) = %q", ls+ls, us+us))
+	}
+	if str(6) != ls || str(7) != us {
+		return mk("not-idempotent", fmt.Sprintf("lower(lower(s)) = %q, upper(upper(s)) = %q", ls, us))
+	}
+	return nil
 }
 
 // c11Judge re-executes a recorded point: the base point is compared with the
@@ -377,6 +453,11 @@ func c11Run(r *core.Run) {
 func c11Judge(r *core.Run, phase string, pt map[string]any) *core.Violation {
 	core.EnableTicks(100000)
 	kind := pstr(pt, "kind")
+	if kind == "case-mapping" {
+		var cp int
+		fmt.Sscan(pstr(pt, "cp"), &cp)
+		return c11CasePoint(r, rune(cp))
+	}
 	expr, docText := pstr(pt, "expr"), pstr(pt, "doc")
 	d := mkDoc(docText)
 	o := core.Search(expr, d.Raw)
@@ -399,8 +480,10 @@ func c11Judge(r *core.Run, phase string, pt map[string]any) *core.Violation {
 		be, bd := pstr(pt, "base_expr"), pstr(pt, "base_doc")
 		bo := core.Search(be, mkDoc(bd).Raw)
 		ren := c11Rename1
-		if strings.HasPrefix(kind, "renaming-2") {
-			ren = c11Rename2
+		for i := range c11Renamings {
+			if strings.HasPrefix(kind, fmt.Sprintf("renaming-%d/", i+1)) {
+				ren = c11Renamings[i]
+			}
 		}
 		exp := bo
 		if bo.Kind == "ok" {
